@@ -80,6 +80,9 @@ def run(chk):
                     r2.ok("PooledClient.%s: handler `except %s` lets ASYNC through" % (f.name, ", ".join(names)), sample=False)
     r2.count("PooledClient handlers inspected", n_h)
 
+    from . import rules_C09, report
+
+    report.include_rules(chk, r2, rules_C09, ("C09.R7",), "the slot must not be lost inside get(): nothing may fail or be interrupted between registering the object as used and handing it to the caller")
     r3 = chk.rule("C10.R3", "HashClient and the other wrappers hold no connection state of their own (no .sock / sendall / recv outside Client)")
     n_sites = 0
     for f in prog.all_functions():
